@@ -1,12 +1,14 @@
 -------------------------- MODULE MqttTopics_Trace --------------------------
 (* Trace validation for C14.  The harness drives the real TopicManager (directly, or through a   *)
 (* real Broker with raw MQTT clients) with seeded random histories and logs                      *)
-(*   {"ev":"reset"}                                                                              *)
+(*   {"ev":"reset","pers":[..]}   new system; pers: the clients that use cleanSession=false           *)
 (*   {"ev":"sub","c":..,"fs":[filter..],"qs":[..],"ok":bool}     SUBSCRIBE and whether it was     *)
 (*                                                               accepted (SUBACK / nil error)   *)
 (*   {"ev":"unsub","c":..,"fs":[..]}   {"ev":"disc","c":..}                                      *)
 (*   {"ev":"takeover","c":..}     a cleanSession=true connection took c's id over and the old      *)
 (*                                connection has ended (its teardown is complete)                   *)
+(*   {"ev":"resume","c":..}       the connection of c's persistent session (cleanSession=false) ended  *)
+(*                                and c connected again with cleanSession=false                         *)
 (*   {"ev":"probe","t":topic,"r":[{"c":..,"q":..}..]}            findSubscribers(t)              *)
 (* Every event must be a step of the contract; a probe is accepted iff its client set is exactly *)
 (* the contract's and every QoS is one of that client's own matching subscriptions' QoS.          *)
@@ -19,7 +21,8 @@ tvars == <<vars, l>>
 
 IsEvent(e) == l <= Len(TLog) /\ TLog[l].ev = e /\ l' = l + 1
 
-TReset == IsEvent("reset") /\ subs' = {} /\ n' = 0 /\ last' = [a |-> "init"]
+TReset == /\ IsEvent("reset") /\ subs' = {} /\ n' = 0 /\ last' = [a |-> "init"]
+          /\ {TLog[l].pers[i] : i \in 1..Len(TLog[l].pers)} = Persistent
 
 TSub == /\ IsEvent("sub")
         /\ \E keep \in SUBSET (1..Len(TLog[l].fs)) : Subscribe(TLog[l].c, TLog[l].fs, TLog[l].qs, keep)
@@ -31,6 +34,8 @@ TDisc == IsEvent("disc") /\ Disconnect(TLog[l].c)
 
 TTakeover == IsEvent("takeover") /\ Takeover(TLog[l].c)
 
+TResume == IsEvent("resume") /\ Resume(TLog[l].c)
+
 TProbe ==
     /\ IsEvent("probe")
     /\ LET r == TLog[l].r
@@ -40,7 +45,7 @@ TProbe ==
           /\ \A i, j \in 1..Len(r) : r[i].c = r[j].c => i = j
     /\ UNCHANGED vars
 
-TNext == TReset \/ TSub \/ TUnsub \/ TDisc \/ TTakeover \/ TProbe
+TNext == TReset \/ TSub \/ TUnsub \/ TDisc \/ TTakeover \/ TResume \/ TProbe
 TInit == l = 1 /\ Init
 TSpec == TInit /\ [][TNext]_tvars
 
